@@ -329,6 +329,8 @@ def class_of(I, v):
 
         return h5py.File if v.is_file else h5py.Group
     if isinstance(v, Opaque):
+        if inspect.isclass(getattr(v, "cls", None)):
+            return v.cls
         if v.tag.startswith("h5file"):
             import h5py
 
